@@ -221,6 +221,8 @@ def main(argv=None):
                 os._exit(0)
         os.waitpid(p, 0)
         res = json.load(open(out))
+        import shutil
+        shutil.rmtree(workdir, ignore_errors=True)
         print(json.dumps({k: res.get(k) for k in ("sid", "status", "violations", "reason")}, indent=1, default=str))
         if res["status"] == "violation":
             print("VIOLATION property=%s replay=%s" % (pid, a.replay))
